@@ -548,6 +548,14 @@ func run(ctx *core.Ctx) error {
 		}
 	}
 
+	// 3b. boundary references (object numbers up to 2^24-1, generations up to 65535)
+	refs := refCases()
+	forAll(len(refs), func(i int) {
+		for _, bits := range []int{0, 1, 2, 31} {
+			col.execFmt(refs[i], fmt.Sprint("ref", i), bits)
+		}
+	})
+
 	// 4. seeded random values and the size limits
 	rnd := randomCases(ctx)
 	forAll(len(rnd), func(i int) {
